@@ -12,7 +12,7 @@ RULE = ("random indexed collections built by the real IndexedInstrumentsBuilder:
         "whose EXCHANGE is e) for a generated SUBSET of the collection's exchanges in shuffled call order - every other selection leaves the exchange with ExchangeIndex(0) link-less while a later "
         "one is linked, the others link each exchange with 60%; 8% are spoiled by a repeated / absent exchange (builder must return Err) - then build() + init() on a paused current-thread tokio "
         "runtime and one open/cancel request per exchange index 0..len (own, link-less, out of range; 70% an instrument of that exchange, else any index 0..len) sent through "
-        "execution_txs.find(&ExchangeIndex(x)).send(..) as Engine::send_request does; observed: the slots of the MultiExchangeTxMap, lookup ok/err, every call ANY client received tagged with the "
+        "the REAL Engine::send_request (engine/action/send_requests.rs) of an engine that owns the transmitter table the builder made; observed: the slots of the MultiExchangeTxMap, lookup ok/err, every call ANY client received tagged with the "
         "receiving client (exchange id, instrument name_exchange, cid, payload), which manager task panicked, the engine key of the echoed answer on the merged account channel; 8% of cases then overwrite 1-3 keys of the built collection through its derived Deserialize (duplicate / shifted / out-of-range keys, outside Indexed: model vs code only) and sweep again. Thorough additionally enumerates all 9 261 collections over 3 exchanges x (0,1,2 instruments named 1|2 over assets {1,2} in either "
         "base/quote order), full find_* sweep on 4 links and every (exchange index, instrument index) order_request on 3 links, plus route ops with the first exchange link-less and the later ones added "
         "in reverse order (every exchange index x every instrument index), all linked in reverse order and the middle one link-less (every exchange index x {own instrument, out of range}). Distinct by SHA-1 of the op lines; "
@@ -33,7 +33,9 @@ ASSUMPTIONS = [
 ]
 SOURCE_FILES = ["barter-execution/src/map.rs", "barter-execution/src/indexer.rs", "barter/src/execution/manager.rs",
                 "barter/src/execution/builder.rs", "barter/src/engine/execution_tx.rs", "barter/src/engine/action/send_requests.rs",
-                "barter-instrument/src/index/mod.rs"]
+                "barter-instrument/src/index/mod.rs", "barter-instrument/src/index/error.rs", "barter-instrument/src/lib.rs", "barter-instrument/src/asset/mod.rs",
+                "barter-instrument/src/instrument/mod.rs", "barter-execution/src/error.rs"]
+PREBUILD = [["python3", "tools/rust2lean_sm.py", "--require", "exec_map"]]
 CLAIM = True
 TECHNIQUE = ("Lean 4: refinement of the per-exchange tables built by generate_execution_instrument_map (filter_map + collect into IndexMap/HashMap, modelled as upsert folds) to "
              "specification functions over the global collection, for arbitrary collections; structural refinement of every AccountEventIndexer function to a key-replacing "
@@ -68,5 +70,11 @@ LEVEL_NOTE = ("Trusted: Lean kernel; axioms propext/Classical.choice/Quot.sound;
               "generate_execution_instrument_map, ExecutionInstrumentMap::find_*, AccountEventIndexer, ExecutionManager::run and ExecutionBuilder::add_live/build/init + MultiExchangeTxMap::find (300 quick / 4 000 random + 9 261 exhaustive small "
               "collections thorough); harness and drivers. Hypothesis WF (key = position, distinct exchange ids, per-exchange injective name_exchange) is decidable, holds for "
               "every builder output with per-exchange unique exchange names, and is shown satisfiable and necessary by examples. The index builder itself is C11; the manager's "
-              "async machinery is C03/C07.")
+              "async machinery is C03/C07. "
+              "ExecutionInstrumentMap::{new, find_* (6), exchange_assets, exchange_instruments}, generate_execution_instrument_map and AccountEventIndexer::{order_key, order_request, asset_balance, trade} are additionally "
+              "regenerated from the source by tools/rust2lean_sm.py (Generated/Machines4.lean, group exec_map; iterator chains read as list functions, collect into IndexMap = insert in order with the value replaced in place, "
+              "collect into FnvHashMap = the same finite map) and proved, for all collections / maps / keys / names and with no hypothesis, to be the model's EMap.new / genMap / EMap.find* / orderKey / orderRequest / assetBalance / trade "
+              "up to an explicit relation (forward tables equal position by position, reverse hash tables equal as finite maps, error messages not modelled): execution_map_agrees_with_source; the translator, its prelude and the stated "
+              "meaning of the iterator vocabulary (Lemmas/KernelsAgree/IterVocab.lean proves what it amounts to) are trusted for that tie. Not translated: the rest of indexer.rs (account_event, snapshot, order_snapshot, "
+              "order_response_cancel, api_error, order_error) and the manager / builder call sites.")
 SUBCHECKS = ["C04M"]
